@@ -9,7 +9,9 @@ inserted value" is built into that definition.
                  LAST may be anything), the sequence of `ReplaceAll` calls the code makes yields
                  exactly `renderAll`.                                   (the property, partial)
 * `sim_exact`  : so does the single simultaneous pass `sim` (the executable spec of the driver).
-* `resolveSource_exact`, `resolveDest_exact` : the two functions, with the real placeholder lists.
+* `resolveSource_partial`, `resolveDest_partial` : the two functions with their real placeholder
+                 lists (`DelimItems`: the shadowing condition of `GoodItems` is PROVED for the
+                 descending `$G` family from decimal arithmetic: `prefixOK_source/_dest`).
 * `Exact_full` (def) + `splice_witness_*` : without the side condition the statement is false for
                  the sequence of calls (`$G$G2`, `$G1$G13`, `$$MTX_PATH`), decided.
 * `query_never_rescanned` : `$MTX_QUERY` is substituted last, so the client's query may contain anything.
@@ -445,6 +447,151 @@ theorem resolveDest_exact (pn : Bytes) (ms : List Bytes) (t : List Item)
     · exact hv _ h
     · rw [h]; exact fun h => nomatch h
 
+/-! #### descending `$G` indices never shadow each other -/
+
+def dval (l : Bytes) : Nat := l.foldl (fun acc c => acc * 10 + (c.toNat - 48)) 0
+
+theorem foldl_ge (r : Bytes) : ∀ a : Nat, a ≤ r.foldl (fun acc c => acc * 10 + (c.toNat - 48)) a := by
+  induction r with
+  | nil => intro a; exact Nat.le_refl a
+  | cons c r ih =>
+    intro a
+    simp only [List.foldl_cons]
+    exact Nat.le_trans (by omega) (ih _)
+
+theorem dval_prefix {p s : Bytes} (h : p <+: s) : dval p ≤ dval s := by
+  obtain ⟨r, rfl⟩ := h
+  simp only [dval, List.foldl_append]
+  exact foldl_ge r _
+
+theorem dval_decGo : ∀ (f n : Nat), n < f → dval (decGo f n) = n := by
+  intro f
+  induction f with
+  | zero => intro n h; omega
+  | succ f ih =>
+    intro n h
+    simp only [decGo]
+    split
+    · rename_i hn
+      simp only [dval, List.foldl_cons, List.foldl_nil, UInt8.toNat_ofNat']
+      omega
+    · rename_i hn
+      have := ih (n / 10) (by omega)
+      simp only [dval, List.foldl_append, List.foldl_cons, List.foldl_nil, UInt8.toNat_ofNat'] at this ⊢
+      rw [this]
+      omega
+
+theorem dec_not_prefix {a b : Nat} (h : b < a) : ¬ dec a <+: dec b := by
+  intro hp
+  have := dval_prefix hp
+  rw [dec, dec, dval_decGo _ _ (by omega), dval_decGo _ _ (by omega)] at this
+  omega
+
+theorem phG_not_prefix {a b : Nat} (h : b < a) : ¬ phG a <+: phG b := by
+  intro hp
+  simp only [phG, List.cons_prefix_cons] at hp
+  exact dec_not_prefix h hp.2.2
+
+
+
+theorem groupPhs_length (ms : List Bytes) : (groupPhs ms).length = ms.length - 1 := by
+  simp [groupPhs]
+
+theorem oldAt_group (ms : List Bytes) (j : Nat) (h : j < ms.length - 1) :
+    oldAt (groupPhs ms) j = phG (ms.length - 1 - j) := by
+  have hl : j < (groupPhs ms).length := by rw [groupPhs_length]; exact h
+  simp only [oldAt, List.getD_eq_getElem?_getD, List.getElem?_eq_getElem hl, Option.getD_some]
+  simp only [groupPhs, List.getElem_map, List.getElem_reverse, List.getElem_range, List.length_range]
+  congr 1
+  omega
+
+theorem oldAt_append_left {A : Phs} {b : Bytes × Bytes} {i : Nat} (h : i < A.length) :
+    oldAt (A ++ [b]) i = oldAt A i := by
+  simp only [oldAt, List.getD_eq_getElem?_getD, List.getElem?_append_left h]
+
+theorem oldAt_append_last {A : Phs} {b : Bytes × Bytes} : oldAt (A ++ [b]) A.length = b.1 := by
+  simp [oldAt, List.getD_eq_getElem?_getD]
+
+theorem phG_not_prefix_query (a : Nat) : ¬ phG a <+: MTX_QUERY := by
+  intro h
+  simp only [phG, MTX_QUERY, List.cons_prefix_cons] at h
+  exact absurd h.2.1 (by decide)
+
+theorem path_not_prefix_phG (a : Nat) : ¬ MTX_PATH <+: phG a := by
+  intro h
+  simp only [phG, MTX_PATH, List.cons_prefix_cons] at h
+  exact absurd h.2.1 (by decide)
+
+/-- in `resolveSource`'s list no earlier (higher-priority) placeholder is a prefix of a later one -/
+theorem prefixOK_source (ms : List Bytes) (q : Bytes) (i n : Nat) (hn : n < i)
+    (hi : i < (sourcePhs ms q).length) :
+    ¬ oldAt (sourcePhs ms q) n <+: oldAt (sourcePhs ms q) i := by
+  have hlen : (sourcePhs ms q).length = (groupPhs ms).length + 1 := by simp [sourcePhs]
+  have hk := groupPhs_length ms
+  unfold sourcePhs
+  have hn' : n < (groupPhs ms).length := by omega
+  rw [oldAt_append_left hn', oldAt_group ms n (by omega)]
+  by_cases h : i < (groupPhs ms).length
+  · rw [oldAt_append_left h, oldAt_group ms i (by omega)]
+    exact phG_not_prefix (by omega)
+  · have : i = (groupPhs ms).length := by omega
+    rw [this, oldAt_append_last]
+    exact phG_not_prefix_query _
+
+theorem oldAt_cons_succ (p : Bytes × Bytes) (A : Phs) (i : Nat) : oldAt (p :: A) (i + 1) = oldAt A i := by
+  simp [oldAt]
+
+theorem prefixOK_dest (pn : Bytes) (ms : List Bytes) (i n : Nat) (hn : n < i)
+    (hi : i < (destPhs pn ms).length) :
+    ¬ oldAt (destPhs pn ms) n <+: oldAt (destPhs pn ms) i := by
+  have hlen : (destPhs pn ms).length = (groupPhs ms).length + 1 := by simp [destPhs]
+  have hk := groupPhs_length ms
+  unfold destPhs
+  cases i with
+  | zero => omega
+  | succ j =>
+    rw [oldAt_cons_succ, oldAt_group ms j (by omega)]
+    cases n with
+    | zero => exact path_not_prefix_phG _
+    | succ m =>
+      rw [oldAt_cons_succ, oldAt_group ms m (by omega)]
+      exact phG_not_prefix (by omega)
+
+/-- DELIMITED template, stated without the shadowing condition -/
+def DelimItems (P : Phs) : List Item → Prop
+  | [] => True
+  | .lit c :: t => c ≠ DOLLAR ∧ DelimItems P t
+  | .ph i :: t => i < P.length ∧ NextOK P t ∧ DelimItems P t
+
+instance delimItemsDec (P : Phs) : (t : List Item) → Decidable (DelimItems P t)
+  | [] => isTrue trivial
+  | .lit c :: t => by
+    have := delimItemsDec P t
+    unfold DelimItems; exact inferInstance
+  | .ph i :: t => by
+    have := delimItemsDec P t
+    unfold DelimItems; exact inferInstance
+
+theorem good_of_delim {P : Phs} (hpre : ∀ i n, n < i → i < P.length → ¬ oldAt P n <+: oldAt P i) :
+    ∀ t, DelimItems P t → GoodItems P t
+  | [], _ => trivial
+  | .lit _ :: t, h => ⟨h.1, good_of_delim hpre t h.2⟩
+  | .ph i :: t, h => ⟨h.1, fun n hn => hpre i n hn h.1, h.2.1, good_of_delim hpre t h.2.2⟩
+
+/-- **C42 for static sources** (the proved part of the property): for every delimited template, all
+capture groups without `$` and ANY query, `resolveSource` returns the template with each `$G<n>`
+replaced by group n and `$MTX_QUERY` by the query, and nothing else changed. -/
+theorem resolveSource_partial (ms : List Bytes) (q : Bytes) (t : List Item)
+    (hv : ∀ v ∈ ms, DOLLAR ∉ v) (hd : DelimItems (sourcePhs ms q) t) :
+    resolveSource (flatten (sourcePhs ms q) t) ms q = renderAll (sourcePhs ms q) t :=
+  (resolveSource_exact ms q t hv (good_of_delim (prefixOK_source ms q) t hd)).1
+
+/-- **C42 for forward destinations** (the proved part). -/
+theorem resolveDest_partial (pn : Bytes) (ms : List Bytes) (t : List Item)
+    (hp : DOLLAR ∉ pn) (hv : ∀ v ∈ ms, DOLLAR ∉ v) (hd : DelimItems (destPhs pn ms) t) :
+    resolveDest (flatten (destPhs pn ms) t) pn ms = renderAll (destPhs pn ms) t :=
+  (resolveDest_exact pn ms t hp hv (good_of_delim (prefixOK_dest pn ms) t hd)).1
+
 /-! #### the full statement, and why it is only partial -/
 
 /-- C42 for sources at full strength: for ALL templates, groups and queries the code's result is the
@@ -479,6 +626,8 @@ theorem dest_splice_witness : ¬ DestExact_full := by
 /-! #### samples (tests, not theorems) -/
 
 -- `a$G1:$G2?$MTX_QUERY` with two groups is a delimited template (hypotheses are satisfiable) …
+example : DelimItems (sourcePhs [[102], [120, 49], [121]] [36, 71, 49])
+    [.lit 97, .ph 1, .lit 58, .ph 0, .lit 63, .ph 2] := by decide
 example : GoodItems (sourcePhs [[102], [120, 49], [121]] [36, 71, 49])
     [.lit 97, .ph 1, .lit 58, .ph 0, .lit 63, .ph 2] := by decide
 -- … its text and its meaning (the query "$G1" is inserted verbatim)
